@@ -20,7 +20,7 @@ META = {
         "zeroing its own demand, children's supply catching up with / exceeding / dropping below their demand, "
         "utilisation changes) x 4 initial child sets (one with a child that has no demand left) x 2 factories, one adjustment cycle after every letter; "
         "kind=random: seeded histories of 1-12 cycles with 0-3 actions each (dyadic demands, children of 1-3 sizes, "
-        "0-4 initial children). Non-trivial = at least one adjustment that spawned or released a child."
+        "0-4 initial children, in 30 % of the cases next to a second, unrelated FactoryPool that releases its children). kind=weak: children that nobody but the pool references (the harness keeps weak references and the last demand written to each), with and without a garbage collection per cycle. Non-trivial = at least one adjustment that spawned or released a child."
     ),
     "assumptions": [
         "factory children start with positive demand and store the demand they are given (documented contract)",
@@ -38,6 +38,7 @@ def plan(tier, seed):
     specs = core.shards(seed, 60000 if big else 2500, 12 if big else 6, kind="random")
     for s in specs:
         s["shard"] = "random-%s" % s["shard"]
+    specs.append(dict(seed=seed, shard="weak", kind="weak", n=3000 if big else 300))
     parts = 8
     for part in range(parts):
         specs.append(dict(seed=seed, shard="exhaustive-%d" % part, kind="exhaustive", depth=3, n=1, part=part, parts=parts))
@@ -65,7 +66,7 @@ def gen_case(rnd, spec):
         cycles.append(acts)
     # initial children may already be draining (demand 0, still holding supply)
     return {"initial": [[rnd.choice([1, 2, 3, 0.5, 0, 0]), rnd.choice([0, 1, 2, 3])] for _ in range(rnd.choice([0, 0, 1, 2, 3, 4]))],
-            "sizes": rnd.choice([[1], [2], [1, 3], [1, 2, 5], [0.5, 4], [3]]), "cycles": cycles}
+            "sizes": rnd.choice([[1], [2], [1, 3], [1, 2, 5], [0.5, 4], [3]]), "cycles": cycles, "neighbour": rnd.random() < 0.3}
 
 
 def execute(case, result):
@@ -81,6 +82,12 @@ def execute(case, result):
 
     initial = [RecPool(demand=d, supply=s, utilisation=1.0, allocation=1.0) for d, s in case["initial"]]
     pool = FactoryPool(*initial, factory=factory, interval=1)
+    # an unrelated second FactoryPool in the same process that releases its children: nothing of it may show up in `pool`
+    neighbours = [RecPool(demand=2, supply=3, utilisation=0.5, allocation=0.5) for _ in range(2)] if case.get("neighbour") else []
+    other = FactoryPool(*neighbours, factory=lambda: RecPool(demand=1, supply=0), interval=1) if neighbours else None
+    if other is not None:
+        other.demand = 0
+        result.count("cases_with_a_second_factory_pool")
     everyone = list(initial)  # strong references: the mortuary only holds weak ones
     if not hasattr(pool, "_hatchery") or not hasattr(pool, "_mortuary"):
         result.inconc("FactoryPool no longer exposes _hatchery/_mortuary; the monitor cannot observe membership")
@@ -127,7 +134,7 @@ def execute(case, result):
         script.append((k + 0.5, act(acts)))
         script.append((k + 0.75, (lambda k=k: snaps.__setitem__(("before", k), snapshot()))))
         script.append((k + 1.25, (lambda k=k: snaps.__setitem__(("after", k), snapshot()))))
-    out = vt.run_virtual([pool], script, until=n + 0.5)
+    out = vt.run_virtual([pool] + ([other] if other is not None else []), script, until=n + 0.5)
     if out.errors:
         return [("run() raised %r" % (out.errors[0][1],), None)]
     if out.returned:
@@ -214,6 +221,69 @@ def execute(case, result):
     return problems[:3]
 
 
+def gen_weak_case(rnd, spec):
+    return {"weak": True, "sizes": rnd.choice([[1], [2], [1, 3], [0.5, 4]]),
+            "requests": [rnd.choice([0, 1, 2, 3, 5, 8, 3, 3]) for _ in range(rnd.randint(3, 10))], "collect": rnd.random() < 0.5}
+
+
+def execute_weak(case, result):
+    """Nobody but the pool holds on to the children its factory made: they must stay until the pool releases them."""
+    import gc
+    import weakref
+    from cobald.composite.factory import FactoryPool
+
+    refs, last_demand = [], []
+
+    def factory():
+        i = len(refs)
+        child = RecPool(demand=case["sizes"][i % len(case["sizes"])], supply=0)
+        last_demand.append(child.peek()["demand"])
+        child.on_write = lambda _self, value, i=i: last_demand.__setitem__(i, value)  # no reference to the child itself
+        refs.append(weakref.ref(child))
+        return child
+
+    pool = FactoryPool(factory=factory, interval=1)
+    if not hasattr(pool, "_hatchery"):
+        result.inconc("FactoryPool no longer exposes _hatchery")
+        return []
+    observations = []
+
+    def act(k):
+        def run():
+            for child in list(pool._hatchery):
+                child.poke(supply=child.peek()["demand"])  # every active child delivers what is asked of it
+            pool.demand = case["requests"][k]
+        return run
+
+    def look(k):
+        def run():
+            if case["collect"]:
+                gc.collect()
+            observations.append((k, [r() is not None for r in refs], list(last_demand), len(refs), pool.demand,
+                                 sum(c.peek()["demand"] for c in pool._hatchery)))
+        return run
+
+    script = []
+    for k in range(len(case["requests"])):
+        script += [(k + 0.5, act(k)), (k + 1.25, look(k))]
+    out = vt.run_virtual([pool], script, until=len(case["requests"]) + 0.5)
+    if out.errors:
+        return [("run() raised %r" % (out.errors[0][1],), None)]
+    problems = []
+    for k, alive, demands, made, request, active in observations:
+        result.count("adjustments_with_children_only_the_pool_holds")
+        gone = [i for i, a in enumerate(alive) if not a and demands[i] != 0]
+        if gone:
+            problems.append(("cycle %d (requests %s): children %s made by the factory have vanished although they still have demand %s and were "
+                             "never released - only the pool held them" % (k, case["requests"], gone, [demands[i] for i in gone]), None))
+            break
+        if active < request:
+            problems.append(("cycle %d (requests %s): after the adjustment the active children's demand %r does not cover the request %r"
+                             % (k, case["requests"], active, request), None))
+            break
+    return problems
+
+
 def run_exhaustive(spec, result):
     thin = spec.get("thin", 1)
     count = 0
@@ -240,6 +310,8 @@ def run_shard(spec):
     try:
         if spec["kind"] == "exhaustive":
             run_exhaustive(spec, result)
+        elif spec["kind"] == "weak":
+            core.drive(PID, spec, gen_weak_case, execute_weak, result)
         else:
             core.drive(PID, spec, gen_case, execute, result)
     finally:
@@ -250,6 +322,6 @@ def run_shard(spec):
 
 def finish(total, tier):
     for name in ("adjustments_checked", "adjustments_grew", "adjustments_released_demand", "adjustments_shrink_branch",
-                 "aggregations_checked", "exhaustive_histories", "adjustments_with_initial_children_without_demand"):
+                 "aggregations_checked", "exhaustive_histories", "adjustments_with_initial_children_without_demand", "cases_with_a_second_factory_pool", "adjustments_with_children_only_the_pool_holds"):
         if not total.counters.get(name) and not total.violations:
             total.inconc("monitor never observed: " + name)
